@@ -126,7 +126,7 @@ fn frames_for(rng: &mut Rng, ai: usize, icao: u32) -> Vec<Vec<u8>> {
         v.push(world::df17(icao, 5, me));
     }
     // TIS-B with assorted control fields
-    for cf in [0u8, 1, 2, 5, 6] {
+    for cf in [0u8, 1, 2, 3, 4, 5, 6, 7] {
         let (f, _) = world::df17_airborne_position(icao, 11, alt, lat, lon, rng.chance(0.5));
         let mut b = f[..11].to_vec();
         b[0] = (18 << 3) | cf;
